@@ -81,7 +81,7 @@ CHECKS = {
          "Generated-input search and exhaustive enumeration: 9.4e8 (1.8e10) evaluations; period claim decided algebraically on observations of the real step function; distributions in range for every mantissa of every listed range.",
          "Trusted: bit-matrix arithmetic and inverse step in c19.rs; linearity is sampled (a failure switches to a counterexample search, never alarms by itself). Edge probabilities / fixed ranges also on ~600 output words structured in all 64 bits; rejection samplers on constructed states with up to 23 (ball: 25) candidates rejected in a row and raw draws next to the inscribed-box corners. Twin build: libm.",
          "DESIGN.md §4 C19"),
- "C20": ("one probe binary per feature configuration {none, libm, mm, std} (thorough: also without debug assertions): dense/exhaustive sweeps of every float helper against std f64 references with fixed per-backend bounds, plus per-configuration consequence checks (C04 half-pixel lattice with exact oracle, sampler addressing, wrap, normalize) and a cross-configuration coverage-hash comparison",
+ "C20": ("one probe binary per feature configuration {none, libm, mm, std} plus the unified builds libm+mm and std+mm (thorough: also without debug assertions): dense/exhaustive sweeps of every float helper against std f64 references with fixed per-backend bounds, plus per-configuration consequence checks (C04 half-pixel lattice with exact oracle, sampler addressing, wrap, normalize) and a cross-configuration coverage-hash comparison over all six builds",
          "Generated-input search: 1.6e8 (1.8e10: all 2^32 bit patterns for floor/abs in all four builds) evaluations; floor/abs exact for |x| < 2^31, rem_euclid in range and congruent, approximate functions within the committed bound table; sqrt/recip_sqrt over every 4099th (251st) positive bit pattern (subnormals included for libm/std), sin/cos/tan and Angle::sin_cos up to 1e30 (mm: 1e3); asin/acos also on log-spaced arguments down to 1e-45; powf also with zero and negative bases; atan2 at every signed-zero pair.",
          "Trusted: std f64 functions as reference; the bound table in harness/fpprobe/src/main.rs; atan2 compared modulo a turn. Open finding F19 (micromath powf accuracy) is listed in known_findings.json; F13, F20, F23, F24 (found by this check) are fixed.",
          "DESIGN.md §4 C20"),
